@@ -32,34 +32,34 @@ CHECKS = {
         text="Randomised request histories (300k quick / 10M thorough) against the real KeyspaceGroup actors on an inspectable fault-injecting store; set and store are compared after every request; plus 6k SQLite-file and 20k LMDB histories (x30 thorough) on the real backends without fault injection, compared after every request and again after close / reopen / reload. Exploration: finds counterexamples, proves nothing.",
         note="Trusts ModelStore (harness Storage implementation that honours the BulkMutationError contract) and the view obtained through Serialize + diff-against-empty.", ref="3 C02"),
     "C03": dict(engine="E1-pure", technique=PBT + " (algebraic laws of merge on generated replica triples)",
-        text="1M (quick) / 60M (thorough) generated replica triples satisfying the statement's precondition by construction; commutativity, associativity, idempotence, schedule independence and lookup agreement are checked on each.",
+        text="3M (quick) / 300M (thorough) generated replica triples satisfying the statement's precondition by construction; commutativity, associativity, idempotence, schedule independence and lookup agreement are checked on each.",
         note="Replicas are built from operations only (never purged): with purged tombstones the laws do not hold by design, which the statement does not claim (DESIGN.md 3 C03).", ref="3 C03"),
     "C04": dict(engine="E1-pure", technique=PBT + " + exhaustive small-scope enumeration against an LWW reference model",
-        text="2M generated arrival orders per quick run (200M thorough) plus exhaustive enumeration of all arrival sequences of <=3 ops in a small scope, each compared step by step with an independent last-writer-wins model.",
+        text="6M generated arrival orders per quick run (600M thorough) plus exhaustive enumeration of all arrival sequences of <=3 ops in a small scope, each compared step by step with an independent last-writer-wins model.",
         note="Trusts the harness's LWW model and field-wise Stamp ordering; stamps are drawn >= 1 h after the datacake epoch and inside a 3000 s window (the property's precondition).", ref="3 C04"),
     "C05": dict(engine="E1-pure", technique=PBT + " (exactness oracle for diff + metamorphic 'apply the diff, nothing is left')",
-        text="2M (quick) / 100M (thorough) generated replica pairs incl. purged ones and, one case in five, replicas with arbitrary gaps on an exact 1 h grid (stamps exactly on a cut-off); the diff is compared with an independently computed expectation and, inside the repair clause's precondition, applied the way the keyspace actor applies it.",
+        text="6M (quick) / 400M (thorough) generated replica pairs incl. purged ones and, one case in five, replicas with arbitrary gaps on an exact 1 h grid (stamps exactly on a cut-off); the diff is compared with an independently computed expectation and, inside the repair clause's precondition, applied the way the keyspace actor applies it.",
         note="The purge cut-off of a replica is observed through a will_apply probe on an unused key (the statement's 'purge cut-off for that origin').", ref="3 C05"),
     "C07": dict(engine="E2-actor+E3-cluster+E5-storage", technique=PBT + " (crash-point injection incl. inside a request, rebuilt state vs storage; node restart inside a running cluster; restarts on the real SQLite / LMDB backends)",
         text="100k (quick) / 5M (thorough) histories with a generated stop point between or inside requests (storage write done, set not updated), one or two restarts; the rebuilt set is compared with storage and with what was acknowledged. Plus 20k / 1M cluster histories in which one of 2-4 real nodes is stopped and restarted on its storage while the others keep working (rebuilt == storage, then LWW convergence), plus 6k SQLite-file and 20k LMDB histories of 1-3 node lives on the real backends (close, reopen, load_states_from_storage, rebuilt == iter_metadata, acknowledged entries survive).",
         note="Process death is modelled by fencing the old storage handle (model store) or by dropping the runtime and every handle (real backends, stops between requests only); fsync durability of the bundled backends is outside (tmpfs). A tombstone the group's start-up purge may legitimately drop (older than the newest entry by the forgiveness period, gone from set and storage alike) is not counted as lost.", ref="3 C07"),
     "C08": dict(engine="E1-pure+E2-actor", technique=PBT + " (invariants around purge_old_deletes on generated hour-scale histories)",
-        text="300k (quick) / 20M (thorough) single-replica histories spanning hours with purges at generated points (live set unchanged, only tombstones returned and removed, never a live id, stale operations from the deleting node refused ever after), plus 100k / 5M cluster timelines on real keyspace actors (timely deliveries by construction, direct and repair paths, clock skew) run twice, with and without purge calls: identical documents on every replica and equal to the LWW model; the store counts any attempt to purge a live id.",
+        text="1M (quick) / 60M (thorough) single-replica histories spanning hours with purges at generated points (live set unchanged, only tombstones returned and removed, never a live id, stale operations from the deleting node refused ever after), plus 100k / 5M cluster timelines on real keyspace actors (timely deliveries by construction, direct and repair paths, clock skew) run twice, with and without purge calls: identical documents on every replica and equal to the LWW model; the store counts any attempt to purge a live id.",
         note="Timeliness (delay + skew < forgiveness period) holds by construction of the timelines; the hourly purge task of a full node is not used, purge calls are generated instead.", ref="3 C08"),
     "C09": dict(engine="E1-pure", technique=PBT + " (stateful send/recv sequences with an injected wall clock, invariant after every call)",
-        text="400k (quick) / 30M (thorough) sequences of up to 60 calls with stalls, backward jumps and drift-limit boundary values of the wall clock and of remote stamps.",
+        text="2M (quick) / 200M (thorough) sequences of up to 60 calls with stalls, backward jumps and drift-limit boundary values of the wall clock and of remote stamps.",
         note="Needs hook H-clock (injectable wall clock). The drift limit 4100 s is taken from the crate's documented constant.", ref="3 C09"),
     "C10": dict(engine="E1-pure", technique=PBT + " + exhaustive boundary grid (round-trips, order isomorphism, parser robustness) + coverage-guided libFuzzer campaign in the thorough tier",
-        text="1M generated stamp pairs, the exhaustive 5600-value boundary grid (31M ordered pairs), a regression corpus and 2M generated strings per quick run.",
+        text="3M generated stamp pairs, the exhaustive 5600-value boundary grid (31M ordered pairs), a regression corpus and 4M generated strings per quick run (300M + 300M thorough).",
         note="from_u64 on words whose fractional byte is >= 250 is outside the claim.", ref="3 C10"),
     "C12": dict(engine="E1-pure+E4", technique=PBT + " (round-trip + exhaustive single-bit-flip / truncation / crafted-short-frame mutation of every generated frame; end-to-end scripts over simulated TCP; libFuzzer+ASan campaign in the thorough tier)",
         text="6000 generated messages per quick run (300k thorough), each expanded into all single-bit flips (frames <= 4 KiB), all truncations and crafted short frames with correct checksums (about 60M mutated frames per quick run), plus 300k (10M thorough) frames handed to RequestContents::from_body as hyper bodies of 1-12 chunks without an announced length (intact, bit-flipped, truncated, extended), plus 6000 end-to-end exchange scripts over hyper/h2 on simulated TCP (values up to 300 KB, handler errors, raw invalid frames in front of a typed handler).",
         note="Frame level (DataView::using); an independent CRC32 decides whether a damaged frame must be refused.", ref="3 C12"),
     "C15": dict(engine="E1-pure+E3-cluster", technique=PBT + " (validity predicate in both directions over selection histories on shared cursors)",
-        text="300k (quick) / 30M (thorough) layouts x selection histories through the public NodeSelector trait, plus 20k / 1M histories on one real node where membership snapshots (joins, leaves, whole data centres leaving, same-count replacements and moves) alternate with DatacakeNode::select_nodes.",
+        text="1.5M (quick) / 150M (thorough) layouts x selection histories through the public NodeSelector trait, plus 60k / 3M histories on one real node where membership snapshots (joins, leaves, whole data centres leaving, same-count replacements and moves) alternate with DatacakeNode::select_nodes.",
         note="Needs hook H-rng for reproducible data-centre choice; the oracle holds for every RNG outcome.", ref="3 C15"),
     "C18": dict(engine="E2-actor+E3-cluster", technique=PBT + " (generated yield schedules on a current-thread runtime + sampled OS schedules on 4 workers; node restart under replication traffic with simulated storage latency)",
-        text="20k generated schedules on a current-thread runtime (order fixed by generated yields; a quarter of the tasks is dropped at a generated suspension point) and 300 x 10 runs on a 4-worker runtime, plus 20k cluster histories in which a node holding persisted keyspaces starts while its peers replicate to it at generated instants around the load of the persisted state (storage reads answer 0-9 simulated ms late); every entry the node's storage holds afterwards must be in the set a fresh lookup serialises, and a keyspace with an acknowledged mutation must be listed in the keyspace info peers poll.",
+        text="200k generated schedules on a current-thread runtime (order fixed by generated yields; a quarter of the tasks is dropped at a generated suspension point) and 300 x 10 runs on a 4-worker runtime, plus 60k cluster histories in which a node holding persisted keyspaces starts while its peers replicate to it at generated instants around the load of the persisted state (storage reads answer 0-9 simulated ms late); every entry the node's storage holds afterwards must be in the set a fresh lookup serialises, and a keyspace with an acknowledged mutation must be listed in the keyspace info peers poll.",
         note="Schedules are sampled, not enumerated; a race needing preemption inside a non-awaiting section would be missed.", ref="3 C18"),
 }
 
